@@ -52,6 +52,10 @@ func checkC12(ctx *Ctx, r *Report) {
 	c12Operators(ctx, r, p)
 	c12UnionAndConst(ctx, r, p)
 	c12RefsFreshBranches(ctx, r, p)
+	c12EnumRoundTrip(ctx, r, p)
+	c12DefinitionKeys(ctx, r, p)
+	c12UnionWrapperClassified(ctx, r)
+	c12NoSiblingsOfRef(ctx, r, p)
 }
 
 func c12Method(p *packages.Package, name string) *ast.FuncDecl {
@@ -741,4 +745,338 @@ func c12RefsFreshBranches(ctx *Ctx, r *Report, p *packages.Package) {
 	r.Floor("definitions returned", 10)
 	r.Count("branch lists formatted by formatDisjunction", nBr)
 	r.Floor("branch lists formatted by formatDisjunction", 1)
+}
+
+// (9) what the emitter writes for an enum is what cog's own OpenAPI front-end reads: formatEnum writes
+// `{"enum": [...]}`; unless it also writes "type", walkEnum of internal/openapi must not reject an enum whose
+// type is absent (an `if` on the emptiness of schema.Type whose body is nothing but an error exit).
+func c12EnumRoundTrip(ctx *Ctx, r *Report, p *packages.Package) {
+	fe := c12Method(p, "formatEnum")
+	op := ctx.Pkg("internal/openapi")
+	if fe == nil || op == nil {
+		r.Undecided("anchor lost: jsonschema.formatEnum / internal/openapi")
+		return
+	}
+	writesType := false
+	ast.Inspect(fe.Body, func(m ast.Node) bool {
+		if c, ok := m.(*ast.CallExpr); ok && len(c.Args) == 2 {
+			if fn := callee(p.TypesInfo, c); fn != nil && fn.Name() == "Set" {
+				if lit, ok := c.Args[0].(*ast.BasicLit); ok && lit.Value == `"type"` {
+					writesType = true
+				}
+			}
+		}
+		return true
+	})
+	var we *ast.FuncDecl
+	for _, f := range op.Syntax {
+		for _, d := range f.Decls {
+			if fd, ok := d.(*ast.FuncDecl); ok && fd.Name.Name == "walkEnum" && fd.Body != nil {
+				we = fd
+			}
+		}
+	}
+	if we == nil {
+		r.Undecided("anchor lost: openapi.walkEnum")
+		return
+	}
+	errT := types.Universe.Lookup("error").Type()
+	var rejects ast.Node
+	tests := 0
+	ast.Inspect(we.Body, func(m ast.Node) bool {
+		is, ok := m.(*ast.IfStmt)
+		if !ok {
+			return true
+		}
+		cond := exprString(is.Cond)
+		if !strings.Contains(cond, ".Type") || !(strings.Contains(cond, "== 0") || strings.Contains(cond, "== nil")) {
+			return true
+		}
+		tests++
+		if len(is.Body.List) == 1 && blockReturnsError(op.TypesInfo, is.Body, errT) {
+			rejects = is
+		}
+		return true
+	})
+	r.Count("tests of an absent enum type in openapi.walkEnum", tests)
+	cons := "openapi.walkEnum reads what jsonschema.formatEnum writes"
+	switch {
+	case writesType:
+		r.OK("roundtrip/enum-type", cons, fe.Pos(), "formatEnum writes \"type\" next to \"enum\"")
+	case rejects == nil:
+		r.OK("roundtrip/enum-type", cons, we.Pos(), "formatEnum writes no \"type\" and walkEnum does not reject an enum without one outright")
+	default:
+		r.Bad("roundtrip/enum-type", cons, rejects.Pos(), "jsonschema.formatEnum (shared by the OpenAPI jenny) writes {\"enum\": [...]} without \"type\", and openapi.walkEnum rejects an enum whose type is absent: no OpenAPI document cog emits for a schema with an enum can be read back by cog")
+	}
+}
+
+// (10) definitions are keyed by name, and foreign objects are inlined into the same table: the key of an inlined
+// foreign object and the text of the references to it must both come from one function of the whole reference
+// (package included) — keyed by the bare name, a foreign `b.Foo` silently replaces the local `Foo` and both
+// references point at the survivor.
+func c12DefinitionKeys(ctx *Ctx, r *Report, p *packages.Package) {
+	info := p.TypesInfo
+	gs := c12Method(p, "GenerateSchema")
+	fr := c12Method(p, "formatRef")
+	if gs == nil || fr == nil {
+		r.Undecided("anchor lost: jsonschema.GenerateSchema / formatRef")
+		return
+	}
+	refT := ctx.LookupType("internal/ast", "RefType")
+	takesRef := func(e ast.Expr) (types.Object, bool) {
+		c, ok := ast.Unparen(e).(*ast.CallExpr)
+		if !ok || len(c.Args) != 1 {
+			return nil, false
+		}
+		if n := namedOf(info.TypeOf(c.Args[0])); n == nil || n != refT {
+			return nil, false
+		}
+		switch f := ast.Unparen(c.Fun).(type) {
+		case *ast.SelectorExpr:
+			return info.Uses[f.Sel], true
+		case *ast.Ident:
+			return info.Uses[f], true
+		}
+		return nil, false
+	}
+	// (i) the key under which foreign objects are inlined
+	parents := parentMap(gs)
+	var keyFn types.Object
+	foreignSets := 0
+	ast.Inspect(gs.Body, func(m ast.Node) bool {
+		c, ok := m.(*ast.CallExpr)
+		if !ok || len(c.Args) != 2 {
+			return true
+		}
+		fn := callee(info, c)
+		sel, _ := ast.Unparen(c.Fun).(*ast.SelectorExpr)
+		if fn == nil || fn.Name() != "Set" || sel == nil || exprString(sel.X) != "definitions" {
+			return true
+		}
+		// which collection is being iterated?
+		local := false
+		for q := parents[ast.Node(c)]; q != nil; q = parents[q] {
+			if it, ok := q.(*ast.CallExpr); ok {
+				if s, ok := ast.Unparen(it.Fun).(*ast.SelectorExpr); ok && s.Sel.Name == "Iterate" && strings.HasSuffix(exprString(s.X), "schema.Objects") {
+					local = true
+				}
+			}
+		}
+		if local {
+			return true
+		}
+		foreignSets++
+		cons := "jsonschema.GenerateSchema keys an inlined foreign object by " + exprString(c.Args[0])
+		if o, ok := takesRef(c.Args[0]); ok && o != nil {
+			keyFn = o
+			r.OK("keywords/definition-key-qualified", cons, c.Pos(), "the key is computed from the whole reference of the object")
+		} else {
+			r.Bad("keywords/definition-key-qualified", cons, c.Pos(), "the definition of an inlined foreign object is stored under "+exprString(c.Args[0])+", which does not depend on its package: a foreign object named like a local one replaces it, and the references to both resolve to the survivor")
+		}
+		return true
+	})
+	r.Count("definitions stored for inlined foreign objects", foreignSets)
+	r.Floor("definitions stored for inlined foreign objects", 1)
+	if keyFn == nil {
+		return
+	}
+	// (ii) references are formatted from the same name
+	ast.Inspect(fr.Body, func(m ast.Node) bool {
+		c, ok := m.(*ast.CallExpr)
+		if !ok || len(c.Args) != 1 {
+			return true
+		}
+		sel, _ := ast.Unparen(c.Fun).(*ast.SelectorExpr)
+		if sel == nil || sel.Sel.Name != "ReferenceFormatter" {
+			return true
+		}
+		same := false
+		ast.Inspect(c.Args[0], func(k ast.Node) bool {
+			if e, ok := k.(ast.Expr); ok {
+				if o, ok := takesRef(e); ok && o == keyFn {
+					same = true
+				}
+			}
+			return true
+		})
+		r.Check(same, "keywords/definition-key-qualified", "jsonschema.formatRef formats "+exprString(c.Args[0]), c.Pos(),
+			"the reference is formatted from the name the definition is stored under",
+			"the definition is stored under "+keyFn.Name()+"(ref) but the reference is formatted from "+exprString(c.Args[0])+": the two disagree as soon as the key is package-qualified (dangling $ref) or both collapse to the bare name")
+		return true
+	})
+	// (iii) the naming function distinguishes packages
+	var lit *ast.FuncLit
+	ast.Inspect(gs.Body, func(m ast.Node) bool {
+		if as, ok := m.(*ast.AssignStmt); ok && len(as.Lhs) == 1 && len(as.Rhs) == 1 {
+			if s, ok := ast.Unparen(as.Lhs[0]).(*ast.SelectorExpr); ok && info.Uses[s.Sel] == keyFn {
+				lit, _ = as.Rhs[0].(*ast.FuncLit)
+			}
+		}
+		return true
+	})
+	if lit == nil {
+		r.Undecided("the function %s is not bound to a literal in GenerateSchema", keyFn.Name())
+		return
+	}
+	qualifies := false
+	ast.Inspect(lit.Body, func(m ast.Node) bool {
+		if rs, ok := m.(*ast.ReturnStmt); ok && len(rs.Results) == 1 && strings.Contains(exprString(rs.Results[0]), ".ReferredPkg") {
+			qualifies = true
+		}
+		return true
+	})
+	r.Check(qualifies, "keywords/definition-key-qualified", "jsonschema."+keyFn.Name()+" can return a package-qualified name", lit.Pos(),
+		"one of its results includes the package of the reference", "none of its results depends on the package of the reference: same-named objects of different packages share one key")
+}
+
+// (11) the struct DisjunctionToType creates for a union is encoded by a generated marshaller only when it carries
+// one of the two union hints (jsonmarshalling.go: IsStructGeneratedFromDisjunction); the schema jennies describe
+// the union itself (anyOf). A wrapper that leaves the pass without either hint is encoded by encoding/json as a
+// plain struct {"String": …, "A": …}, which no branch of the anyOf accepts.
+func c12UnionWrapperClassified(ctx *Ctx, r *Report) {
+	m := ctx.LookupMethod("internal/ast/compiler", "DisjunctionToType", "processDisjunction")
+	if m == nil {
+		r.Undecided("anchor lost: DisjunctionToType.processDisjunction")
+		return
+	}
+	fd, p := ctx.DeclOf(m)
+	if fd == nil || fd.Body == nil {
+		r.Undecided("anchor lost: body of DisjunctionToType.processDisjunction")
+		return
+	}
+	info := p.TypesInfo
+	errT := types.Universe.Lookup("error").Type()
+	isHintStore := func(s ast.Stmt) bool {
+		as, ok := s.(*ast.AssignStmt)
+		if !ok || len(as.Lhs) != 1 {
+			return false
+		}
+		ix, ok := ast.Unparen(as.Lhs[0]).(*ast.IndexExpr)
+		if !ok {
+			return false
+		}
+		k := exprString(ix.Index)
+		return strings.HasSuffix(k, "HintDisjunctionOfScalars") || strings.HasSuffix(k, "HintDiscriminatedDisjunctionOfRefs")
+	}
+	setsHint := func(b *ast.BlockStmt) bool {
+		found := false
+		ast.Inspect(b, func(n ast.Node) bool {
+			if s, ok := n.(ast.Stmt); ok && isHintStore(s) {
+				found = true
+			}
+			return true
+		})
+		return found
+	}
+	conditional, total := 0, false
+	for _, s := range fd.Body.List {
+		if isHintStore(s) {
+			total = true // unconditional
+		}
+		is, ok := s.(*ast.IfStmt)
+		if !ok {
+			continue
+		}
+		if setsHint(is.Body) {
+			conditional++
+			if is.Else != nil {
+				if eb, ok := is.Else.(*ast.BlockStmt); ok && (setsHint(eb) || blockReturnsError(info, eb, errT)) {
+					total = true
+				}
+			}
+		}
+		// `if !scalarsOnly && !refsOnly { return error }`
+		c := exprString(is.Cond)
+		if strings.Contains(c, "HasOnlyScalarOrArrayOrMap") && strings.Contains(c, "HasOnlyRefs") && blockReturnsError(info, is.Body, errT) {
+			total = true
+		}
+	}
+	r.Count("conditional union hints in DisjunctionToType", conditional)
+	r.Floor("conditional union hints in DisjunctionToType", 1)
+	r.Check(total, "flow/union-wrapper-classified", "DisjunctionToType classifies every union wrapper it creates", fd.Pos(),
+		"every path that registers the wrapper struct sets a union hint or returns an error",
+		"the wrapper struct gets HintDisjunctionOfScalars only for scalars/arrays/maps and HintDiscriminatedDisjunctionOfRefs only for references: a union mixing both (`string | #A`) is registered without either, the Go jenny generates no MarshalJSON/UnmarshalJSON for it, and its encoding {\"String\": …} / {\"A\": …} is rejected by the emitted anyOf")
+}
+
+// (12) draft-07 §8.3 and the OpenAPI 3.0 Reference Object: siblings of "$ref" are ignored. A keyword that carries
+// a value of the IR (default, constraints, …) and is written on the map formatType returned is void whenever that
+// map is a reference — unless the store is under a test that the type is not a reference.
+func c12NoSiblingsOfRef(ctx *Ctx, r *Report, p *packages.Package) {
+	info := p.TypesInfo
+	annotations := map[string]bool{"description": true, "title": true, "$comment": true}
+	n := 0
+	for _, f := range p.Syntax {
+		for _, d := range f.Decls {
+			fd, ok := d.(*ast.FuncDecl)
+			if !ok || fd.Body == nil {
+				continue
+			}
+			parents := parentMap(fd)
+			// locals holding the result of formatType(T)
+			formatted := map[types.Object]ast.Expr{}
+			ast.Inspect(fd.Body, func(m ast.Node) bool {
+				as, ok := m.(*ast.AssignStmt)
+				if !ok || len(as.Lhs) != 1 || len(as.Rhs) != 1 {
+					return true
+				}
+				c, ok := ast.Unparen(as.Rhs[0]).(*ast.CallExpr)
+				if !ok || len(c.Args) != 1 {
+					return true
+				}
+				if fn := callee(info, c); fn == nil || fn.Name() != "formatType" {
+					return true
+				}
+				if id, ok := as.Lhs[0].(*ast.Ident); ok {
+					if o := objOf(info, id); o != nil {
+						formatted[o] = c.Args[0]
+					}
+				}
+				return true
+			})
+			if len(formatted) == 0 {
+				continue
+			}
+			ast.Inspect(fd.Body, func(m ast.Node) bool {
+				c, ok := m.(*ast.CallExpr)
+				if !ok || len(c.Args) != 2 {
+					return true
+				}
+				fn := callee(info, c)
+				sel, _ := ast.Unparen(c.Fun).(*ast.SelectorExpr)
+				if fn == nil || fn.Name() != "Set" || sel == nil {
+					return true
+				}
+				id, ok := ast.Unparen(sel.X).(*ast.Ident)
+				if !ok {
+					return true
+				}
+				typ, ok := formatted[objOf(info, id)]
+				if !ok {
+					return true
+				}
+				lit, ok := c.Args[0].(*ast.BasicLit)
+				if !ok {
+					return true
+				}
+				kw := strings.Trim(lit.Value, "\"")
+				if annotations[kw] {
+					return true
+				}
+				n++
+				guarded := false
+				for _, ec := range enclosingConds(parents, c) {
+					txt := exprString(ec.stmt.Cond)
+					if strings.Contains(txt, exprString(typ)+".IsRef()") || strings.Contains(txt, "KindRef") {
+						guarded = true
+					}
+				}
+				r.Check(guarded, "keywords/no-siblings-of-ref", fmt.Sprintf("jsonschema.%s writes %q on the schema of %s", fd.Name.Name, kw, exprString(typ)), c.Pos(),
+					"under a test on whether the type is a reference",
+					fmt.Sprintf("%q is written on the map formatType(%s) returned whatever the kind of the type: when the type is a reference the map is {\"$ref\": …} and every sibling of $ref is ignored by draft-07 and OpenAPI 3.0 loaders (cog's own front-ends included), so the value is lost", kw, exprString(typ)))
+				return true
+			})
+		}
+	}
+	r.Count("value keywords written on an already formatted type", n)
+	r.Floor("value keywords written on an already formatted type", 1)
 }
